@@ -45,6 +45,7 @@ var urlClasses = []string{
 	"https://example.com",
 	"https://example.com/story/view?tag=go&pg=2",
 	"https://example.com/story/view?pg=2&pg=3&tag=web",
+	"https://example.com/zqt/12/p/1",
 }
 
 type callStep struct {
